@@ -15,7 +15,7 @@ def contIter : Cont → Option Nat
   | .iterRefresh it => some it
   | _ => none
 
-/-- the iterator whose call (Seek / Next, the Refresh inside Next included) the thread is executing -/
+/-- the iterator whose call (Seek / Next with the Refresh inside it / the explicit Refresh) the thread is executing -/
 def pcIter : PC → Option Nat
   | .findLevel fp => contIter fp.cont
   | .findNext fp _ => contIter fp.cont
@@ -32,6 +32,7 @@ def opIter : Op → Option Nat
   | .itNext it => some it
   | .itClose it => some it
   | .itInterval it _ => some it
+  | .itRefresh it => some it
   | _ => none
 
 /-! ### iterators other than the one written -/
@@ -302,6 +303,13 @@ theorem startOp_other {it : Nat} (sh : Shared) (th : Thread) (op : Op) (hidle : 
     split
     · split
       · exact ⟨hid, iter?_of_iters_setIter (th := th) rfl hne⟩
+      · exact ⟨hid, rfl⟩
+    · exact ⟨hid, rfl⟩
+  · rename_i it'
+    have hne : it' ≠ it := fun e => h (by rw [e]; rfl)
+    split
+    · split
+      · exact ⟨by simp [pcIter, hne], rfl⟩
       · exact ⟨hid, rfl⟩
     · exact ⟨hid, rfl⟩
 
